@@ -175,4 +175,77 @@ theorem flDouble_std : StdModel flDouble := by
   constructor <;> linarith
 
 
+/-! ### time range of a source; ids of `from_field` items -/
+
+theorem samplesFrom_head (t0 dt : Int) (data : List Int) (x : C01.Sample) (rest : List C01.Sample)
+    (h : C01.samplesFrom t0 dt data = x :: rest) : x.1 = t0 := by
+  cases data with
+  | nil => simp [C01.samplesFrom] at h
+  | cons v vs => simp only [C01.samplesFrom, List.cons.injEq] at h; rw [← h.1]
+
+theorem samplesFrom_getLast (dt : Int) (data : List Int) : ∀ (t0 : Int) (y : C01.Sample),
+    (C01.samplesFrom t0 dt data).getLast? = some y → y.1 + dt = t0 + data.length * dt := by
+  induction data with
+  | nil => intro t0 y h; simp [C01.samplesFrom] at h
+  | cons v vs ih =>
+    intro t0 y h
+    cases vs with
+    | nil =>
+      simp only [C01.samplesFrom, List.getLast?_singleton, Option.some.injEq] at h
+      rw [← h]; simp
+    | cons w ws =>
+      have : (C01.samplesFrom t0 dt (v :: w :: ws)).getLast? = (C01.samplesFrom (t0 + dt) dt (w :: ws)).getLast? := by
+        simp only [C01.samplesFrom, List.getLast?_cons_cons]
+      rw [this] at h
+      have := ih (t0 + dt) y h
+      simp only [List.length_cons] at this ⊢
+      push_cast at this ⊢
+      rw [this]; ring
+
+/-- start/stop of a non-empty continuous or time-series source are its first timestamp and one step after its last -/
+theorem src_range (s : C01.Src) (hs : ∀ t, s ≠ .tags t) (x y : C01.Sample) (rest : List C01.Sample)
+    (hk : s.samples = x :: rest) (hy : (x :: rest).getLast? = some y) :
+    s.start = x.1 ∧ s.stop = y.1 + stepOf s := by
+  cases s with
+  | cont c =>
+    simp only [C01.Src.samples, C01.Cont.samples] at hk
+    refine ⟨(samplesFrom_head _ _ _ _ _ hk).symm, ?_⟩
+    rw [← hk] at hy
+    have := samplesFrom_getLast c.dt c.data c.start y hy
+    simp only [C01.Src.stop, C01.Cont.stop, stepOf]
+    omega
+  | ts l =>
+    simp only [C01.Src.samples] at hk
+    subst hk
+    simp only [C01.Src.start, C01.Src.stop, stepOf, List.head?_cons, Option.map_some, Option.getD_some, hy, and_self]
+  | tags t => exact absurd rfl (hs t)
+
+theorem crop_kind (s : C01.Src) (a b : Int) (hs : ∀ t, s ≠ .tags t) :
+    (∀ t, cropChannel s a b ≠ .tags t) ∧ stepOf (cropChannel s a b) = stepOf s := by
+  unfold cropChannel C01.Src.getitem
+  cases s with
+  | cont c => split <;> simp [C01.Src.slice, stepOf, C01.Cont.slice]
+  | ts l => split <;> simp [C01.Src.slice, stepOf]
+  | tags t => exact absurd rfl (hs t)
+
+theorem filterMap_zipIdx_ids {α} (f : α × Nat → Option CalItem) (hf : ∀ a i x, f (a, i) = some x → x.id = i) (l : List α) :
+    ∀ k, (∀ x ∈ (l.zipIdx k).filterMap f, k ≤ x.id) ∧ ((l.zipIdx k).filterMap f).Pairwise (fun x y => x.id < y.id) := by
+  induction l with
+  | nil => intro k; simp
+  | cons a as ih =>
+    intro k
+    obtain ⟨ih1, ih2⟩ := ih (k + 1)
+    rw [List.zipIdx_cons, List.filterMap_cons]
+    cases h : f (a, k) with
+    | none =>
+      refine ⟨fun x hx => ?_, ih2⟩
+      have := ih1 x hx; omega
+    | some y =>
+      have hy := hf a k y h
+      refine ⟨fun x hx => ?_, List.pairwise_cons.mpr ⟨fun z hz => ?_, ih2⟩⟩
+      · rcases List.mem_cons.mp hx with rfl | hx
+        · omega
+        · have := ih1 x hx; omega
+      · have := ih1 z hz; omega
+
 end Verif.C05
